@@ -11,6 +11,7 @@ import (
 
 	"mellium.im/xmpp"
 	"mellium.im/xmpp/jid"
+	"mellium.im/xmpp/websocket"
 	"verif.sim/simrt"
 	"verif.sim/simrt/simnet"
 )
@@ -25,6 +26,7 @@ type E2 struct {
 	Remote    jid.JID
 	NS        string
 	Server    bool
+	WS        bool
 	EstErr    error
 	// Serve bookkeeping
 	ServeErr     error
@@ -42,6 +44,7 @@ type E2 struct {
 // E2Opts selects the session variant.
 type E2Opts struct {
 	S2S   bool // server-to-server namespace (stanzas get a from)
+	WS    bool // WebSocket framing (RFC 7395): <open/> ... <close/> instead of an enclosing stream element
 	Plain bool // transport without deadlines (plain io.ReadWriter)
 	Chunk bool // short reads on both ends
 }
@@ -52,7 +55,7 @@ const nsStream = "http://etherx.jabber.org/streams"
 // default negotiator and no features, the peer a script that answers with a
 // stream header and an empty feature list.
 func (rc *RC) NewE2(o E2Opts) *E2 {
-	e := &E2{rc: rc, Server: o.S2S}
+	e := &E2{rc: rc, Server: o.S2S, WS: o.WS}
 	e.SUT, e.Peer = rc.Net.Pipe("sut", "peer")
 	e.Ctx, e.Cancel = context.WithCancel(context.Background())
 	rc.OnCleanup(func() { e.Cancel(); e.SUT.Close(); e.Peer.Close() })
@@ -73,12 +76,22 @@ func (rc *RC) NewE2(o E2Opts) *E2 {
 	if o.Plain {
 		rw = simnet.Plain{C: e.SUT}
 	}
+	cfgf := func(*xmpp.Session, *xmpp.StreamConfig) xmpp.StreamConfig { return xmpp.StreamConfig{} }
+	neg := xmpp.NewNegotiator(cfgf)
+	if o.WS {
+		neg = websocket.Negotiator(cfgf)
+	}
 	sutT := rc.Spawn("establish", func() {
-		e.Sess, e.EstErr = xmpp.NewSession(e.Ctx, e.Remote, e.Local, rw, state, xmpp.NewNegotiator(func(*xmpp.Session, *xmpp.StreamConfig) xmpp.StreamConfig {
-			return xmpp.StreamConfig{}
-		}))
+		e.Sess, e.EstErr = xmpp.NewSession(e.Ctx, e.Remote, e.Local, rw, state, neg)
 	})
 	peerT := rc.Spawn("peer-establish", func() {
+		if o.WS {
+			simrt.WaitUntil("peer:header", func() bool {
+				return bytes.Contains(e.SUT.Out().Tap, []byte("<open ")) && bytes.HasSuffix(e.SUT.Out().Tap, []byte("/>"))
+			})
+			fmt.Fprintf(e.Peer, `<open xmlns="urn:ietf:params:xml:ns:xmpp-framing" id='sid1' from='%s' to='%s' version='1.0'/><features xmlns="http://etherx.jabber.org/streams"/>`, e.Remote, e.Local)
+			return
+		}
 		// wait for the SUT's header, answer with ours and an empty feature list
 		simrt.WaitUntil("peer:header", func() bool {
 			return bytes.Contains(e.SUT.Out().Tap, []byte("version='1.0'")) && bytes.HasSuffix(e.SUT.Out().Tap, []byte(">"))
@@ -92,7 +105,9 @@ func (rc *RC) NewE2(o E2Opts) *E2 {
 	}
 	pt := e.Peer.Out().Tap
 	e.PeerEstLen = len(pt)
-	e.PeerHeader = append([]byte(nil), pt[:bytes.Index(pt, []byte("<stream:features/>"))]...)
+	if !o.WS {
+		e.PeerHeader = append([]byte(nil), pt[:bytes.Index(pt, []byte("<stream:features/>"))]...)
+	}
 	return e
 }
 
@@ -175,6 +190,83 @@ type Wire struct {
 }
 
 const closeTag = "</stream:stream>"
+const closeTagWS = `<close xmlns="urn:ietf:params:xml:ns:xmpp-framing"/>`
+
+// CloseTag is the closing construct of the framing in use.
+func (e *E2) CloseTag() string {
+	if e.WS {
+		return closeTagWS
+	}
+	return closeTag
+}
+
+// ParseOut parses everything the SUT wrote, in the framing in use.
+func (e *E2) ParseOut() Wire {
+	if e.WS {
+		return parseWireWS(e.SUT.Out().Tap)
+	}
+	return ParseWire(e.SUT.Out().Tap)
+}
+
+// parseWireWS: WebSocket framing has no enclosing element: <open/>, top-level elements, <close/>.
+func parseWireWS(b []byte) Wire {
+	var w Wire
+	w.NumCloses = bytes.Count(b, []byte("<close "))
+	d := xml.NewDecoder(bytes.NewReader(b))
+	depth := 0
+	var cur *Elem
+	for {
+		off := int(d.InputOffset())
+		tok, err := d.Token()
+		if err != nil {
+			if err != io.EOF {
+				if strings.Contains(err.Error(), "unexpected EOF") {
+					w.Partial = depth > 0
+				} else {
+					w.Err, w.ErrOff = err, off
+				}
+			}
+			return w
+		}
+		tok = xml.CopyToken(tok)
+		switch t := tok.(type) {
+		case xml.StartElement:
+			depth++
+			if depth == 1 {
+				cur = &Elem{Start: t, Off: off}
+			}
+			cur.Toks = append(cur.Toks, t)
+		case xml.EndElement:
+			cur.Toks = append(cur.Toks, t)
+			depth--
+			if depth == 0 {
+				cur.End = int(d.InputOffset())
+				switch {
+				case cur.Start.Name.Space == "urn:ietf:params:xml:ns:xmpp-framing" && cur.Start.Name.Local == "open" && w.Header == nil:
+					st := cur.Start
+					w.Header = &st
+				case cur.Start.Name.Space == "urn:ietf:params:xml:ns:xmpp-framing" && cur.Start.Name.Local == "close":
+					w.Closed, w.CloseOff, w.CloseEnd = true, cur.Off, cur.End
+					w.Trailing = b[w.CloseEnd:]
+					return w
+				default:
+					w.Elems = append(w.Elems, *cur)
+				}
+				cur = nil
+			}
+		case xml.CharData:
+			if depth >= 1 {
+				cur.Toks = append(cur.Toks, t)
+			} else if len(bytes.TrimSpace(t)) > 0 {
+				w.TopText += string(t)
+			}
+		default:
+			if depth >= 1 {
+				cur.Toks = append(cur.Toks, t)
+			}
+		}
+	}
+}
 
 // ParseWire parses everything one side wrote: optional XML declaration, stream
 // header, top-level elements, closing tag.
